@@ -18,10 +18,10 @@ from harness.common import *
 from harness import refparse as rf
 
 ID = 'C18'
-CANDS = [('UNARY', '-'), ('UNARY', '!'), ('UNARY', '+'), ('BINARY', '+'), ('BINARY', '*'), ('BINARY', '-'),
+CANDS = [('UNARY', '-'), ('UNARY', '!'), ('UNARY', '+'), ('UNARY', '++'), ('POSTFIX', '!'), ('REFERENCE', 'f'), ('FUNCTION', 'a'), ('BINARY', '+'), ('BINARY', '*'), ('BINARY', '-'),
          ('POSTFIX', '++'), ('POSTFIX', '--'), ('TERNARY', None), ('FUNCTION', 'f'), ('FUNCTION', 'g'),
          ('REFERENCE', 'a'), ('REFERENCE', 'b'), ('LIST', None), ('MAP', None), ('CHAIN', None)]
-TEXTS = ['- a', '! a', '+ a', 'a + b', 'a * b', 'a - b', 'a ++', 'a --', 'a ? b : c', 'f ( a )', 'g ( a , b )', 'f ( )', 'a', 'b', 'c',
+TEXTS = ['- a', '! a', '+ a', '++ a', '++ a ++', 'f', 'a ( f )', 'a + b', 'a * b', 'a - b', 'a ++', 'a --', 'a ? b : c', 'f ( a )', 'g ( a , b )', 'f ( )', 'a', 'b', 'c',
          '[ a , b ]', '[ ]', '{ a : b }', 'a ; b', '1.50', '"s"', 'true',
          '- a + f ( [ b ] ) * { a : b ++ } ; a ? b : c', 'a - - b', 'f ( g ( a ) , - a ) ++']
 SETTERS = {'UNARY': 'set_unary_descriptor', 'BINARY': 'set_binary_descriptor', 'POSTFIX': 'set_postfix_descriptor',
@@ -142,7 +142,7 @@ def harness(it, px, params):
     if p.kind != 'ok':
         raise ModelError('C18 text did not parse: ' + text)
     d = api.describe(it, p.value)
-    want = ref_describe(rf.ref_parse(text.split(), rf.BUILTIN_INFIX), reg)
+    want = ref_describe(rf.ref_parse(text.split(), rf.BUILTIN_INFIX, any_prefix=True), reg)
     rec['want'] = want
     px.cover('described')
     if d.kind != 'ret':
